@@ -281,6 +281,11 @@ func (e *cenv) lookupObj(pkg *types.Package, name string) (val, bool) {
 	case *types.Const:
 		return e.constObj(x), true
 	case *types.Var:
+		if _, isS := isStructVal(x.Type()); isS {
+			// struct-typed package variable: one heap cell per leaf field, as in the code
+			l := &loc{root: rootGlobal, rootT: mangle(x.Pkg().Path() + "." + x.Name()), typ: x.Type()}
+			return val{e.g.load(e.st, l), x.Type(), e.g.sortOf(x.Type())}, true
+		}
 		k := e.g.globalKey(x)
 		return val{e.g.read(e.st, k), x.Type(), e.g.sortOf(x.Type())}, true
 	}
@@ -327,6 +332,18 @@ func (e *cenv) tr(x cexpr) val {
 	case *cQuant:
 		return e.quant(x)
 	case *cTypeX:
+		// `*x.f` in argument position parses as a pointer type; when x is a variable it
+		// is the dereference of the selector expression
+		if x.t.kind == "ptr" && x.t.elem != nil && x.t.elem.kind == "name" {
+			parts := strings.Split(x.t.elem.name, ".")
+			if _, isVar := e.vars[parts[0]]; isVar || (e.local != nil && func() bool { _, ok := e.local(parts[0]); return ok }()) {
+				var ex cexpr = &cIdent{parts[0]}
+				for _, p := range parts[1:] {
+					ex = &cSel{ex, p}
+				}
+				return e.tr(&cUnary{"*", ex})
+			}
+		}
 		e.fail("type %s used as value", x.t)
 	}
 	e.fail("unsupported expression %s", x)
@@ -649,6 +666,12 @@ func (e *cenv) eq(a, b val) string {
 		if a.t == "(mk_iface 0 0)" {
 			return fmt.Sprintf("(= (i_dt %s) 0)", b.t)
 		}
+	}
+	if a.sort == "Iface" && b.sort != "Iface" && b.sort != "nil" {
+		// interface compared with a concrete value: the value is boxed (Go semantics)
+		b = val{e.g.makeIface(e.st, "true", b), a.typ, "Iface"}
+	} else if b.sort == "Iface" && a.sort != "Iface" && a.sort != "nil" {
+		a = val{e.g.makeIface(e.st, "true", a), b.typ, "Iface"}
 	}
 	if a.sort != b.sort {
 		e.fail("comparing %s with %s", a.sort, b.sort)
@@ -1170,8 +1193,14 @@ func (e *cenv) call(x *cCall) val {
 	// pure Go function with a contract
 	if pf := e.pureFunc(x.fun); pf != nil {
 		var args []val
-		for _, a := range x.args {
-			args = append(args, e.tr(a))
+		for i, a := range x.args {
+			v := e.tr(a)
+			if i < len(pf.params) {
+				if pt, err := g.resolveType(pf.params[i].typ, g.w.allTPkg[pf.pkgPath]); err == nil {
+					v = e.convert(v, pt)
+				}
+			}
+			args = append(args, v)
 		}
 		return g.pureApp(pf, args)
 	}
